@@ -231,7 +231,7 @@ fn main() {
 
     // quick: all histories of <= 2 operations from all bases, plus 3 operations
     // from the committed full base b7c at dim 2, layer seed 1; thorough: <= 3 operations
-    // with layer seeds {1,2}, 4 operations with seed 1.
+    // with layer seeds {1,2}, 4 operations from {b4, b7c} at dim 2 with seed 1.
     let cfgs = all_cfgs(&[2, 8], false);
     let all = vec!["empty", "b4", "b7c"];
     type Step = (usize, Vec<&'static str>, Vec<usize>, Vec<u64>);
@@ -247,7 +247,7 @@ fn main() {
             (1, all.clone(), vec![2, 8], vec![1, 2]),
             (2, all.clone(), vec![2, 8], vec![1, 2]),
             (3, all.clone(), vec![2, 8], vec![1, 2]),
-            (4, all.clone(), vec![2, 8], vec![1]),
+            (4, vec!["b4", "b7c"], vec![2], vec![1]),
         ],
     );
     let mut all_seeds = BTreeSet::new();
